@@ -879,6 +879,7 @@ def thread_variants(prog, crate, j, limit=60):
                 if (si, R) in tried:
                     continue
                 names = {R}
+                refs = {}
                 chain = []
                 cur = st_["t"]
                 seen = {si}
@@ -898,6 +899,9 @@ def thread_variants(prog, crate, j, limit=60):
                         if st.get("k") != "assign":
                             continue
                         rv = st["rv"]
+                        if len(st["lhs"]) == 1 and rv["k"] == "ref" and not rv.get("mut") and len(rv["p"]) == 1 and rv["p"][0] in nn:
+                            refs[st["lhs"][0]] = rv["p"][0]
+                            continue
                         if len(st["lhs"]) == 1 and rv["k"] == "use":
                             pl = rv["a"].get("m") or rv["a"].get("c")
                             if pl and len(pl) == 1 and pl[0] in nn:
@@ -918,6 +922,13 @@ def thread_variants(prog, crate, j, limit=60):
                         a = t["args"][0].get("m") or t["args"][0].get("c")
                         if a and len(a) == 1 and a[0] in nn:
                             test = ("try", cur, a[0])
+                        break
+                    pm = re.search(r"(Option::<T>::(is_none|is_some)|Result::<T, E>::(is_ok|is_err))$", str((t.get("f") or {}).get("path", ""))) \
+                        if t.get("k") == "call" else None
+                    if pm and "t" in t and not t.get("inlined") and len(t.get("dest") or []) == 1:
+                        a = t["args"][0].get("m") or t["args"][0].get("c")
+                        if a and len(a) == 1 and a[0] in refs:
+                            test = ("pred:" + (pm.group(2) or pm.group(3)), cur, refs[a[0]])
                         break
                     if t.get("k") == "goto" or (t.get("k") == "drop" and t.get("p") and t["p"][0] not in nn) or \
                             (t.get("k") == "call" and t.get("inlined") and t.get("inlined") != "skipped" and "t" in t and not t.get("dest")):
@@ -945,6 +956,30 @@ def thread_variants(prog, crate, j, limit=60):
                         else:
                             continue
                     extra = []
+                elif kind.startswith("pred:"):
+                    tc = tblk["term"]
+                    Bl = tc["dest"][0]
+                    D = tc["t"]
+                    dblk = blocks[D]
+                    dt = dblk.get("term") or {}
+                    okd = all(st.get("k") != "assign" or st["rv"].get("k") == "use" for st in dblk.get("stmts", []))
+                    sw = (dt.get("d") or {}).get("m") or (dt.get("d") or {}).get("c") if dt.get("k") == "switch" else None
+                    alias = {Bl}
+                    for st in dblk.get("stmts", []):
+                        if st.get("k") == "assign" and len(st["lhs"]) == 1 and st["rv"].get("k") == "use":
+                            pl = st["rv"]["a"].get("m") or st["rv"]["a"].get("c")
+                            if pl and len(pl) == 1 and pl[0] in alias:
+                                alias.add(st["lhs"][0])
+                    if not okd or not sw or len(sw) != 1 or sw[0] not in alias:
+                        continue
+                    truth = {"is_none": V == "None", "is_some": V == "Some", "is_ok": V == "Ok", "is_err": V == "Err"}[kind[5:]]
+                    tg = dict((v, x) for v, x in dt["ts"])
+                    if 0 not in tg or tg[0] == dt["o"]:
+                        continue
+                    target = dt["o"] if truth else tg[0]
+                    sp = tblk.get("sp") or {}
+                    extra = [{"k": "assign", "lhs": [Bl], "rv": {"k": "use", "a": {"k": {"ty": locals_[Bl]["ty"], "s": "true" if truth else "false", "int": int(truth)}}}, "sp": sp}] + \
+                        [copy.deepcopy(st) for st in dblk.get("stmts", [])]
                 else:
                     tc = tblk["term"]
                     BR = tc["dest"][0]
